@@ -459,22 +459,39 @@ def check_proofs(chk, pid, extra_dirs=()):
     return st
 
 
-def coqchk_all(timeout=3000):
-    """independent re-check of every compiled property file with coqchk; returns (ok, axioms line, tail)"""
-    ok, out = coq_make()
-    if not ok:
-        return False, "build failed", out[-1500:]
+def coqchk_all(required=("Base", "C03"), timeout=3000):
+    """independent re-check of the compiled property files with coqchk.
+    The development is built with `make -k`; a property directory whose files do not build at this moment (its Gen/*.v
+    facts were last regenerated from another tree, or its proofs are broken - its OWN check reports that) is left out
+    and listed in `skipped`; the directories in `required` must build.  Returns (ok, axioms line, tail, skipped)."""
+    with Lock("coq"):
+        coq_makefile()
+        rc, out = sh(["make", "-k", "-j%d" % NCPU], cwd=COQ, timeout=1500)
+    failed_files = set(re.findall(r"\*\*\* \[[^\]]*?theories/(\w+/\w+)\.vo\] Error", out))
+    failed = {f.split("/")[0] for f in failed_files}
+    if "Gen" in failed:
+        # a broken facts file: everything importing it is unreliable - keep only what cannot depend on it
+        failed |= {d for d in os.listdir(os.path.join(COQ, "theories")) if d not in ("Base", "C03", "Gen")}
+        failed.discard("Gen")
+        if "Gen/XidTable" in failed_files:
+            failed.add("C03")
+    if rc != 0 and not failed:
+        return False, "build failed", out[-1500:], []
+    if failed & set(required):
+        return False, "build failed", out[-1500:], sorted(failed)
     mods = []
     for root, _, names in os.walk(os.path.join(COQ, "theories")):
         for n in names:
             if n in ("Props.v", "UnicodeOk.v"):
                 rel = os.path.relpath(os.path.join(root, n), os.path.join(COQ, "theories"))
+                if rel.split("/")[0] in failed:
+                    continue
                 mods.append("Verif." + rel[:-2].replace("/", "."))
     with Lock("coq"):
         rc, out = sh(["coqchk", "-o", "-silent", "-Q", "theories", "Verif"] + sorted(mods), cwd=COQ, timeout=timeout)
     m = re.search(r"\* Axioms:\s*(.*?)\n\s*\n", out, re.S)
     ax = m.group(1).strip() if m else "?"
-    return rc == 0 and ax == "<none>", ax, out[-1500:]
+    return rc == 0 and ax == "<none>", ax, out[-1500:], sorted(failed)
 
 
 # ---- evaluating model definitions inside Coq (cases.v + vm_compute)
@@ -668,6 +685,13 @@ def rt_target_dir():
     return os.environ.get("VERIF_RT_TARGET", os.path.join(BUILD, "target-rt"))
 
 
+def repo_lock():
+    """the workspace lock file (git-ignored in the repository, so a bare checkout lacks it): fall back to the copy kept
+    in harness/ (same registry snapshot)"""
+    p = os.path.join(REPO, "Cargo.lock")
+    return p if os.path.exists(p) else os.path.join(VERIF, "harness", "repo.Cargo.lock")
+
+
 def make_crate(name, main_rs, extra_files=None, features=("full",), edition="2021", deps_extra="", bin=True,
                default_features=True):
     """A throw-away crate depending on the real derive_more at /repo (the working tree)."""
@@ -698,7 +722,7 @@ incremental = false
         os.makedirs(os.path.dirname(p), exist_ok=True)
         with open(p, "w") as fh:
             fh.write(content)
-    shutil.copy(os.path.join(REPO, "Cargo.lock"), os.path.join(d, "Cargo.lock"))
+    shutil.copy(repo_lock(), os.path.join(d, "Cargo.lock"))
     return d
 
 
